@@ -211,6 +211,15 @@ def ev_iers(row, rec):
         if st3 != 'ok' or n2.ref_epoch != ep2 or type(n2.ref_epoch) is not type(ep2) or (n2.from_datum, n2.to_datum) != ('ITRFyy', 'ITRFxx') \
                 or any(fr(getattr(n2, f)) != -fr(getattr(t2, f)) for f in names):
             bad.append(('reverse of a set with reference epoch %r' % (ep2,), repr(getattr(n2, 'ref_epoch', n2))))
+    # the frame labels are names, not inputs of the unit conversion: the same numbers under every label that occurs in the shipped
+    # catalogue (either side), under lower-case / empty labels
+    labels = sorted({str(getattr(v, a)) for v in catalogue().values() for a in ('from_datum', 'to_datum')}) + ['', 'itrf2000', 'ITRF 2000', 'xx']
+    for lab in labels:
+        for fr_, to_ in ((lab, 'ITRFyy'), ('ITRFxx', lab), (lab, lab)):
+            st4, t4 = rec.call(gc.iers2trans, fr_, to_, ep, *row)
+            if st4 != 'ok' or any(getattr(t4, f) != getattr(t, f) for f in names) or (t4.from_datum, t4.to_datum) != (fr_, to_):
+                bad.append(('labels %r -> %r change the stored numbers' % (fr_, to_), repr(t4)[:200]))
+                break
     rec.outcome('ok' if not bad else 'bad')
     rec.sample({'iers_row': row})
     if bad:
